@@ -488,6 +488,10 @@ def _variant_reasons(case, v):
     if [g[0] for g in v["groups"]] != want:
         return out + [f"groups {[g[0] for g in v['groups']]} are not one per wrapper, each listing its destinations in "
                       f"registration order: {want}"]
+    for (path, tree, more), (_, _entries, desc), doc in zip(hw, v["groups"], v["docs"] + [None] * len(hw)):
+        # the group says what documents its dataclass: here always the class docstring (members carry none: no source)
+        if doc is not None and desc != " ".join(doc.split()):
+            out.append(f"group of {'.'.join(path)} shows the description {desc!r}, its class is documented by {doc!r}")
     for (path, tree, more), (_, entries, _d) in zip(hw, v["groups"]):
         fs = [f for f in tree["fields"] if drv.exposed(f)]
         if len(fs) != len(entries):
@@ -666,7 +670,8 @@ def signature(case, obs, reason):
         return "hidden-field-in-group-description" + ("" if misfit is None else ":" + misfit)
     if reason.startswith("coq-spec"):
         return "coq-spec-only"
-    kinds = [("--help ended with", "help-does-not-exit-0"), ("--help did not print", "help-not-on-stdout-only"),
+    kinds = [("shows the description", "group-description-is-not-the-documentation"),
+             ("--help ended with", "help-does-not-exit-0"), ("--help did not print", "help-not-on-stdout-only"),
              ("groups ", "groups-not-one-per-destination"), ("group of", "entry-count-differs-from-exposed-fields"),
              ("is not the entry of", "entry-order"), ("but the parser accepts", "option-strings-differ-from-accepted"),
              ("shows default", "default-shown-is-not-effective-default"), ("shows help", "help-text-differs"),
